@@ -80,6 +80,9 @@ fn over_declares_bin(input: &[u8], be: bool) -> bool {
 
 /// Run every archive-family entry point on `input`.
 pub fn probe(c: &mut Case, input: &[u8], what: &str) {
+    // every parser sees a private exact-size copy at a (usually) misaligned address
+    let tight_copy = crate::monitor::tight(input);
+    let input: &[u8] = &tight_copy;
     let mut p = Probe { c, input, what };
     for be in [false, true] {
         let en = if be { Endian::Big } else { Endian::Little };
@@ -201,10 +204,10 @@ pub fn gen_seed(rng: &mut Rng, miri: bool) -> Seed {
                 }
             };
             if content.unicode {
-                push_sjis(&mut data, &content.title);
+                push_sjis(&mut data, if crate::refs::strings::sjis_ok(&content.title) { &content.title } else { "T" });
             }
             for (k, v) in &content.entries {
-                a.labels.entry(data.len()).or_default().push(k.clone());
+                a.labels.entry(data.len()).or_default().push(if crate::refs::strings::sjis_ok(k) { k.clone() } else { format!("K{}", data.len()) });
                 if content.unicode {
                     for u in v.encode_utf16() {
                         data.extend_from_slice(&u.to_le_bytes());
